@@ -59,7 +59,7 @@ def mean_cases(draw):
         weights = [draw(st.lists(st.one_of(st.integers(1, 16).map(lambda k: k / 4.0), gen.finite(0.01, 100)), min_size=n, max_size=n))
                    for _ in range(ncomp)]
     return dict(layout=lay, points=pts, data=data, weights=weights, wmode=wmode, center=draw(st.booleans()),
-                shape=draw(st.sampled_from(blocks.shape_options(n))), readonly=draw(st.booleans()), orders=draw(build.orders_strategy()))
+                shape=draw(st.sampled_from(blocks.shape_options(n))), readonly=draw(st.booleans()), orders=draw(build.orders_strategy()), container=draw(st.sampled_from(build.CONTAINERS)))
 
 
 def expected_weights(variances):
@@ -103,7 +103,10 @@ def check_mean(case, ctx):
             ctx.nt(True)
             return
         raise Violation("uncertainty=True without weights was accepted and returned %r" % (res,))
-    res = bm.filter((e, n), d_arg, w_arg) if weights is not None else bm.filter((e, n), d_arg)
+    P = lambda a: build.present(a, case.get("container"))  # noqa: E731
+    pd_arg = P(d_arg) if not isinstance(d_arg, tuple) else tuple(P(x) for x in d_arg)
+    pw_arg = None if w_arg is None else (P(w_arg) if not isinstance(w_arg, tuple) else tuple(P(x) for x in w_arg))
+    res = bm.filter((P(e), P(n)), pd_arg, pw_arg) if weights is not None else bm.filter((P(e), P(n)), pd_arg)
     for a, b in zip(arrays, before):
         ctx.check(np.array_equal(a, b), "BlockMean.filter modified one of its input arrays")
     ctx.check(isinstance(res, tuple) and len(res) == 3, "filter must return (coordinates, mean, weights)")
